@@ -36,6 +36,7 @@ func init() {
 			ruleRingModulus(c, r, "", "enc")
 			ruleSpecIndices(c, r, "")
 			ruleLcLp(c, r, "")
+			ruleRawVsCompressed(c, r, "")
 			ruleCoderStates(c, r, "")
 			ruleProbModel(c, r, "")
 			ruleRangeCoder(c, r, "")
@@ -74,6 +75,8 @@ func init() {
 			ruleRawEOFFlag(c, r, "")
 			ruleReaderFrom(c, r, "")
 			ruleReopenState(c, r, "")
+			ruleApplyOps(c, r, "")
+			ruleRingWriters(c, r, "")
 			ruleCheckEncoding(c, r, "")
 			ruleDictCapDecode(c, r, "")
 			ruleLzmaFilterCodec(c, r, "")
@@ -147,6 +150,7 @@ func init() {
 			ruleDecoderBounds(c, r, "")
 			ruleByteAtGuards(c, r, "")
 			ruleValidDictCap(c, r, "")
+			ruleLitInit(c, r, "")
 			// "every stream the library writes": a nil result of Write/Close means the bytes were delivered
 			wcone := c.Cone(nonNilFns(c.Func("lzma", "Writer.Write"), c.Func("lzma", "Writer.Close"), c.Func("lzma", "WriterConfig.NewWriter"))...)
 			ruleIO(c, r, wcone, "", true)
